@@ -8,6 +8,7 @@ package surgeon
 //@ func CopyPage
 //@   returns (err)
 //@   props C20
+//@   ensures [reads] err == nil ==> grtxid[srcPage] == ftxid(srcPage, old(fwcount)) && grroot[srcPage] == froot(srcPage, old(fwcount)) && (forall j int :: j != srcPage ==> grtxid[j] == old(grtxid[j]) && grroot[j] == old(grroot[j]))
 //@   ensures [write] err == nil ==> fwcount == old(fwcount) + 1 && fwpath == path && fwpageid == target
 //@   ensures [content] err == nil ==> fwtxid == grtxid[srcPage] && fwroot == grroot[srcPage] && fwsequence == grsequence[srcPage] && fwfreelist == grfreelist[srcPage] && fwpgid == grpgid[srcPage] && fwmagic == grmagic[srcPage] && fwversion == grversion[srcPage] && fwpagesize == grpagesize[srcPage] && fwflags == grflags[srcPage]
 //@   ensures [atmostone] fwcount <= old(fwcount) + 1
